@@ -1,5 +1,5 @@
 """C02: decided on the L1 machine (theorem Ivy.Props.C02.monitor_accepts) + T-replay correspondence."""
-from . import l1
+from . import l1, loopgen
 PROP = "C02"
 LEANCHECK_MODULES = ["Ivy.L1.Machine", "Ivy.L1.Exec", "Ivy.Mon.C02", "Ivy.L1.ProofsC02", "Ivy.Props.C02"]
 FAMILIES = ['churn', 'mix']
@@ -9,13 +9,19 @@ RULE = ("scenario families ['churn', 'mix'] (see vlib/loopgen.py) rotating over 
         "replayed through the Lean machine (every library record must be predicted) and through the Lean monitor(s) ['C02']; sanitizer "
         "classes counted as violations of this property: []. non-trivial = a handler was cleared or set between two waits while the descriptor stayed registered; distinct by hash of the log")
 
+RETRACT_RULE = ("; plus the ENUMERATED family 'retract' (264 scenarios per run, not sampled): 4 methods x {descriptor, cross-thread iv_event, iv_event_raw} "
+                "handler dispatched first x 10 manipulations of another source collected in the same iteration (handlers cleared then unregistered, "
+                "freed, recycled, same struct re-registered, bands dropped and re-added) x both arrival orders, and failed registration attempts "
+                "followed by a successful registration of the same, not re-initialised, struct")
+
 
 def nontrivial(log):
     return "API fdSet" in log and log.count("WAIT ") >= 2
 
 
 def run(tier, seed, proof):
-    return l1.run_property(PROP, tier, seed, proof, FAMILIES, MONS, SANS, nontrivial, RULE)
+    return l1.run_property(PROP, tier, seed, proof, FAMILIES, MONS, SANS, nontrivial, RULE + RETRACT_RULE,
+                           extra_cases=lambda tier, seed: loopgen.retract_cases(seed))
 
 
 def search(tier, seed, proof):
